@@ -73,6 +73,11 @@ def oracle(c, r):
         if not (T.close(res["hi"], t["hi"]) and res["lo"] == t["lo"]):
             return Failure(dict(sig, clause="inverse-span"), f"span [{res['lo']},{res['hi']}] not restored to [{t['lo']},{t['hi']}]")
         return None
+    if r[0] == "err" and r[1] == "TextgridStateError" and t["k"] == "I" and any(e[0] >= s and e[0] + d >= e[1] + d for e in t["es"]):
+        # the one refusal no float arithmetic can avoid (DESIGN 2.2 / 11.7, layer R `space_collapse`): a WHOLE entry a few ulps
+        # long whose two ends, moved by d, are the same float.  A praatio error, as C05 demands.  Met by living histories that
+        # go on with the result of a 'split' whose right-hand remainder is such an entry.
+        return None
     if r[0] == "err":
         return Failure(dict(sig, clause="no-error", exc=r[1]), f"insertSpace of a well-formed tier raised {r[1]}")
     res = r[1]
